@@ -42,6 +42,7 @@ type vOpt struct {
 	Domains []string `json:"domains,omitempty"`
 	MTU     uint32   `json:"mtu,omitempty"`
 	URI     string   `json:"uri,omitempty"`
+	RawLen  uint8    `json:"raw_prefix_len,omitempty"` // prefix options: if > 128, the length byte is overwritten on the wire (a peer can send anything)
 }
 
 type vRA struct {
